@@ -123,14 +123,20 @@ def register4(reg):
                       ('property', 'self._results.mvals == store(old_self._results.mvals, key, o_ok(RuleResultR(node=spec_cstfinal(result.node), newpos=result.newpos)))')])
     # C03: the seed-growing loop terminates for every input (measure), returns the last seed that advanced,
     # restores the position each round and leaves the caller's frames untouched
+    SEED = ('implies({c}, self._results.mkeys[key] and is_ok(self._results.mvals[key]) and '
+            'ok_res(self._results.mvals[key]).newpos == {r}.newpos and spec_cstfinal(ok_res(self._results.mvals[key]).node) == spec_cstfinal({r}.node))')
     contract(reg, f'{E}:ParserEngine.recursive_call', ['C03', 'C04'], {'self': 'Ctx', 'ri': 'RuleInfoR', 'key': 'MemoKeyR'}, ret='RuleResultR',
              modifies=['self.states.state_stack', 'self._memos', 'self._results'],
              requires=REQ + ['key.ruleinfo == ri', MOK, ROK],
              invariants={0: [SAME, MOK, ROK, 'lastpos >= -1', f'lastpos <= {LEN}', f'initial == {OTOP}.cursor.pos',
                              'implies(lastpos < 0, is_failure(result, "FailedLeftRecursion"))',
-                             'implies(lastpos >= 0, is_ok(result) and ok_res(result).newpos == lastpos)']},
+                             'implies(lastpos >= 0, is_ok(result) and ok_res(result).newpos == lastpos)',
+                             SEED.format(r='ok_res(result)', c='lastpos >= 0')]},
              decreases={0: f'{LEN} - lastpos'},
-             ensures=[('property', SAME), MOK, ROK, f'0 <= result.newpos', f'result.newpos <= {LEN}'],
+             ensures=[('property', SAME), MOK, ROK, f'0 <= result.newpos', f'result.newpos <= {LEN}',
+                      # what a later invocation of the rule at this position gets is the grown result that was returned, not the
+                      # shorter result of the round that no longer advanced
+                      ('property', SEED.format(r='result', c='ri.is_lrec'))],
              raises={'ParseException': [('property', SAME), MOK, ROK]},
              propagates=[GROW])
     # C01/C04/C05/C09: one rule invocation as its caller sees it
